@@ -21,7 +21,7 @@ type c15Case struct {
 	Garbage [][]int `json:"garbage"`
 	// damaged / foreign packets that arrive after frame A's survivors, right before frame B
 	After [][]int `json:"after"`
-	Class   string  `json:"class"`
+	Class string  `json:"class"`
 }
 
 func c15Items(s c15Src) [][]byte {
